@@ -305,13 +305,18 @@ def run(chk):
     chk.rule = ("catalogue cells = operator instance (every class, depth-2 nestings, generic depth+1/+2 wrappers) x operator batch "
                 "{(),(2,),(2,3),(1,),...} x size {1,2,3,+rect} x dtype {f32,f64} x rhs kind {1-D, (n,c), (n,1), same batch, size-1 batch, "
                 "extra batch, missing batch, op batch 1 vs rhs 3} x observation {@, matmul, _matmul, x@op, rmatmul, mT@, _t_matmul, "
-                "to_dense, base to_dense, mT.to_dense, shape/size/dim/batch_shape/matrix_shape/numel}; values seed-random small integers "
+                "to_dense, base to_dense, mT.to_dense, shape/size/dim/batch_shape/matrix_shape/numel}; Part IV: every instance with 3 batch dims of "
+                "pairwise different sizes + Cat along every batch position + multi-dim BatchRepeat, x batch transformation {permute (all, incl. cyclic), "
+                "transpose, unsqueeze, expand, batch index, sum, repeat, Block*/SumBatch with every block_dim, 18 wrappers, 2-step compositions}; "
+                "values seed-random small integers "
                 "(exact), Toeplitz-containing instances toleranced; distinct = distinct (cell, values); non-trivial = dense not 1x1 / all-zero")
     chk.assumptions += ["FFT implements circular convolution (Toeplitz)", "torch.matmul / sparse dsmm on integer-valued floats are exact",
                         "covar_func of kernel operators is a pure function"]
     chk.prove("LinOp.Properties.C01", ["LinOp/C01", "LinOp/Core/Basic.lean", "LinOp/Core/Parse.lean", "LinOp/Core/Bridge.lean"])
     run_ = Runner(chk)
     part1(chk, run_)
+    from . import c01_batch
+    c01_batch.part4(chk, run_)
     from . import c01_corr
     c01_corr.part2(chk)
     c01_corr.part3(chk)
@@ -331,5 +336,9 @@ def replay(chk, payload):
     chk.seed = pl.get("seed", chk.seed)
     chk.rng = random.Random(f"{PID}:{chk.seed}")
     run_ = Runner(chk)
-    part1(chk, run_)
+    if pl.get("part") == "batch":  # Part IV draws from its own generator (seed, tier)
+        from . import c01_batch
+        c01_batch.part4(chk, run_)
+    else:
+        part1(chk, run_)
     chk.violations = [v for v in chk.violations if v[0] == cell]
